@@ -7,7 +7,7 @@ cp /verif/evidence/$prop.json /tmp/seedtest-ev-$$.json 2>/dev/null
 trap 'git -C /repo checkout -- . ; cp /tmp/seedtest-ev-$$.json /verif/evidence/$prop.json 2>/dev/null; rm -f /tmp/seedtest-ev-$$.json' EXIT
 cd /verif && ./check "$prop" "$tier" > /tmp/seedtest-$$.out 2>&1
 rc=$?
-grep -E "^VIOLATION|^KNOWN-FINDING|^CHECK-BROKEN|signature=" /tmp/seedtest-$$.out | cut -c1-400 | head -8
+grep -a -E "^VIOLATION|^KNOWN-FINDING|^CHECK-BROKEN|signature=" /tmp/seedtest-$$.out | cut -c1-400 | head -8
 tail -1 /tmp/seedtest-$$.out | cut -c1-300
 echo "rc=$rc"
 rm -rf /tmp/seedtest-$$.out /tmp/seedtest-root-$$
